@@ -34,8 +34,10 @@ WAL_GRAMMAR = r"""
     int : dec_int | bin_int | hex_int
     float : /[+-]?[0-9]+\.[0-9]*/
     dec_int : /[+-]?[0-9]+/
-    bin_int : /0b[0-1]+/
-    hex_int : /0x[0-9a-fA-F]+/
+    bin_int : BIN_INT
+    hex_int : HEX_INT
+    BIN_INT.2 : /0b[0-1]+/
+    HEX_INT.2 : /0x[0-9a-fA-F]+/
 
     bool : true | false
     true : "true"
@@ -51,9 +53,9 @@ WAL_GRAMMAR = r"""
 
     string : ESCAPED_STRING
 
-    list : "(" [sexpr*] ")"
-           | "[" [sexpr*] "]"
-           | "{" [sexpr*] "}"
+    list : "(" _INTER* ")" | "(" sexpr+ ")"
+           | "[" _INTER* "]" | "[" sexpr+ "]"
+           | "{" _INTER* "}" | "{" sexpr+ "}"
 
     %import common.ESCAPED_STRING
     %import common.WS
